@@ -884,6 +884,7 @@ type c08Run struct {
 	busy   int            // events seen while a metric was in force and pods were assigned
 	concOrder string      // inside a concurrent segment: the observed order of completed calls
 	reach  int            // filters that reached the threshold comparison
+	fwCustomCompared int  // framework verdicts compared on a node that carries a valid custom-thresholds annotation
 }
 
 func (c *c08Run) ns(k int) *c08NodeShadow {
@@ -1142,11 +1143,18 @@ func (c *c08Run) doFilter(q c08Filter) {
 	h.Obs("filter %d", verdict)
 	h.Tag(fmt.Sprintf("verdict:%d", verdict))
 	c.checkFloat(q.pod)
+	c.judgeFilter(q, verdict, "")
+}
 
+// judgeFilter is oracle (c): the statement evaluated on one verdict.  sfx "" = the verdict of a direct call of
+// Plugin.Filter; ":framework" = the verdict of the scheduler framework for the node (PreFilter, then the Filter plugins
+// the framework still runs, on one CycleState) - the fingerprints carry the suffix.
+func (c *c08Run) judgeFilter(q c08Filter, verdict int, sfx string) {
+	h := c.h
 	// ---- oracle (c): the statement on this verdict
 	if !q.hasNode || q.daemon {
 		if q.hasNode && q.daemon && verdict != 0 {
-			h.Fail("C08:daemonset-filtered", "daemon-set pod got verdict %d", verdict)
+			h.Fail("C08:daemonset-filtered"+sfx, "daemon-set pod got verdict %d", verdict)
 		}
 		return
 	}
@@ -1159,7 +1167,7 @@ func (c *c08Run) doFilter(q c08Filter) {
 	if ns.metric == nil {
 		h.Tag("branch:no-metric")
 		if verdict != 0 {
-			h.Fail("C08:missing-metric-not-skipped", "node without a metric report got verdict %d", verdict)
+			h.Fail("C08:missing-metric-not-skipped"+sfx, "node without a metric report got verdict %d", verdict)
 		}
 		return
 	}
@@ -1174,13 +1182,13 @@ func (c *c08Run) doFilter(q c08Filter) {
 				want = 3
 			}
 			if verdict != want {
-				h.Fail("C08:expired-metric-switch", "expired metric, enableScheduleWhenExpired=%d: verdict %d, configured %d", q.enable, verdict, want)
+				h.Fail("C08:expired-metric-switch"+sfx, "expired metric, enableScheduleWhenExpired=%d: verdict %d, configured %d", q.enable, verdict, want)
 			}
 			return
 		}
 	}
 	if verdict == 3 {
-		h.Fail("C08:expired-metric-switch", "verdict 'metric expired' although the report is fresh or expiry filtering is off")
+		h.Fail("C08:expired-metric-switch"+sfx, "verdict 'metric expired' although the report is fresh or expiry filtering is off")
 		return
 	}
 	if !m.hasInfo {
@@ -1229,7 +1237,7 @@ func (c *c08Run) doFilter(q c08Filter) {
 			h.Fail("C08:float-assumption", "round(%d/%d*100)=%d, exact %s", e, al[i], got, exact.String())
 		}
 		if verdict == 0 && lhs.Cmp(rhs) > 0 {
-			h.Fail("C08:pass-over-threshold", "node %d resource %d: estimate %d of allocatable %d is above %d%% (+0.5) but the pod passed", q.node, i, e, al[i], thr[i])
+			h.Fail("C08:pass-over-threshold"+sfx, "node %d resource %d: estimate %d of allocatable %d is above %d%% (+0.5) but the pod passed", q.node, i, e, al[i], thr[i])
 		}
 	}
 }
